@@ -4,8 +4,10 @@ From FS Require Export Model.Hedge.
 
 Record hstart := { hs_time : Z; hs_attempts : Z; hs_hedges : Z; hs_is_hedge : bool }.
 
+(* [c_second]: the hedge sits inside a retry policy (one retry after [delay]); when the first hedged run ends in an
+   error the second run uses the second list of attempts and starts at end + delay *)
 Record case := mk_case {
-  c_id : Z; c_cfg : hcfg; c_atts : list attempt; c_ext : option (Z * err); c_t0 : Z;
+  c_id : Z; c_cfg : hcfg; c_atts : list attempt; c_second : option (Z * list attempt); c_ext : option (Z * err); c_t0 : Z;
   c_out : outcome; c_end : Z; c_starts : list hstart; c_hedge_events : list Z;
   c_cancelled : list bool }.
 
@@ -19,10 +21,29 @@ Definition starts_ok (l : list hstart) : bool :=
              (hs_attempts s =? Z.of_nat i + 1) && (hs_hedges s =? Z.of_nat i) && Bool.eqb (hs_is_hedge s) (negb (Nat.eqb i 0)))
           (combine (seq 0 (length l)) l).
 
-Definition agrees (c : case) : bool :=
+Definition has_err_out (o : outcome) : bool := match snd o with Some _ => true | None => false end.
+
+(* the model run(s): one hedged run, or two when an enclosing retry re-runs the hedge *)
+Definition model_runs (c : case) : hobs * option hobs :=
   let m := hedge_run (c_cfg c) (c_atts c) (c_ext c) (c_t0 c) in
-  ho_tie m || outcome_eqb (ho_out m) (c_out c) && (ho_end m =? c_end c) && zl_eqb (ho_starts m) (map hs_time (c_starts c))
-  && zl_eqb (tl (ho_starts m)) (c_hedge_events c) && bl_eqb (ho_cancelled m) (c_cancelled c) && starts_ok (c_starts c).
+  match c_second c with
+  | Some (d, atts2) => if has_err_out (ho_out m) then (m, Some (hedge_run (c_cfg c) atts2 (c_ext c) (ho_end m + d))) else (m, None)
+  | None => (m, None)
+  end.
+
+Definition agrees (c : case) : bool :=
+  match model_runs c with
+  | (m, None) =>
+      ho_tie m || outcome_eqb (ho_out m) (c_out c) && (ho_end m =? c_end c) && zl_eqb (ho_starts m) (map hs_time (c_starts c))
+      && zl_eqb (tl (ho_starts m)) (c_hedge_events c) && bl_eqb (ho_cancelled m) (c_cancelled c)
+      && (match c_second c with None => starts_ok (c_starts c) | Some _ => true end)
+  | (m, Some m2) =>
+      (* the enclosing retry policy (one retry) is exhausted when the second run fails too: ExceededError wraps its outcome *)
+      let expected := if has_err_out (ho_out m2) then (0, Some (EExceeded (fst (ho_out m2)) (snd (ho_out m2)))) else ho_out m2 in
+      ho_tie m || ho_tie m2 || outcome_eqb expected (c_out c) && (ho_end m2 =? c_end c)
+      && zl_eqb (ho_starts m ++ ho_starts m2) (map hs_time (c_starts c))
+      && zl_eqb (tl (ho_starts m) ++ tl (ho_starts m2)) (c_hedge_events c)
+  end.
 
 (* the property on the implementation's observation alone *)
 Fixpoint prefix_sums (t : Z) (ds : list Z) (n : nat) : list Z :=
@@ -34,8 +55,27 @@ Definition spacing_ok (c : case) : bool :=
             fold_left Z.add (firstn i (map (fun k => nth_delay (c_cfg c) k) (seq 0 i))) (c_t0 c) <=? hs_time s)
           (combine (seq 0 (length (c_starts c))) (c_starts c)).
 
+Definition tie_any (c : case) : bool :=
+  match model_runs c with (m, None) => ho_tie m | (m, Some m2) => ho_tie m || ho_tie m2 end.
+
+(* the second run of a retried hedge: hedge k of that run never starts before the run's own start + k delays *)
+Definition second_run_spacing_ok (c : case) : bool :=
+  match c_second c, model_runs c with
+  | Some _, (m, Some m2) =>
+      let n1 := length (ho_starts m) in
+      let second := skipn n1 (c_starts c) in
+      match second with
+      | [] => true
+      | s0 :: _ =>
+          forallb (fun p => let '(i, s) := p in
+                     fold_left Z.add (map (fun k => nth_delay (c_cfg c) k) (seq 0 i)) (hs_time s0) <=? hs_time s)
+                  (combine (seq 0 (length second)) second)
+      end
+  | _, _ => true
+  end.
+
 Definition checker_ok (c : case) : bool :=
-  ho_tie (hedge_run (c_cfg c) (c_atts c) (c_ext c) (c_t0 c)) ||
+  tie_any c || match c_second c with Some _ => second_run_spacing_ok c | None => false end ||
   Nat.leb (length (c_starts c)) (S (h_max (c_cfg c)))
   && spacing_ok c
   && starts_ok (c_starts c)
@@ -51,6 +91,6 @@ Definition checker_ok (c : case) : bool :=
           && (Z.of_nat (length (filter negb (c_cancelled c))) =? 1)
       end).
 
-Definition skipped_ids (cs : list case) : list Z := map c_id (filter (fun c => ho_tie (hedge_run (c_cfg c) (c_atts c) (c_ext c) (c_t0 c))) cs).
+Definition skipped_ids (cs : list case) : list Z := map c_id (filter tie_any cs).
 Definition mismatches (cs : list case) : list Z := map c_id (filter (fun c => negb (agrees c)) cs).
 Definition checker_failures (cs : list case) : list Z := map c_id (filter (fun c => negb (checker_ok c)) cs).
